@@ -2,18 +2,27 @@
 use std::io::{Read, Write};
 
 fn collect_modules(dir: &std::path::Path) -> Vec<(String, String)> {
-    // package.path "./?.lua": every NAME.lua in the current directory is a candidate module
-    let mut out = Vec::new();
-    if let Ok(rd) = std::fs::read_dir(dir) {
-        for e in rd.flatten() {
-            let p = e.path();
-            if p.extension().and_then(|x| x.to_str()) == Some("lua") {
-                if let (Some(stem), Ok(src)) = (p.file_stem().and_then(|s| s.to_str()), std::fs::read_to_string(&p)) {
-                    out.push((stem.to_string(), src));
+    // package.path "./?.lua": NAME.lua in the current directory is module NAME, a/b.lua is module a.b
+    fn walk(dir: &std::path::Path, prefix: &str, depth: u32, out: &mut Vec<(String, String)>) {
+        if let Ok(rd) = std::fs::read_dir(dir) {
+            for e in rd.flatten() {
+                let p = e.path();
+                if p.is_dir() {
+                    if depth < 4 {
+                        if let Some(n) = p.file_name().and_then(|s| s.to_str()) {
+                            walk(&p, &format!("{}{}.", prefix, n), depth + 1, out);
+                        }
+                    }
+                } else if p.extension().and_then(|x| x.to_str()) == Some("lua") {
+                    if let (Some(stem), Ok(src)) = (p.file_stem().and_then(|s| s.to_str()), std::fs::read_to_string(&p)) {
+                        out.push((format!("{}{}", prefix, stem), src));
+                    }
                 }
             }
         }
     }
+    let mut out = Vec::new();
+    walk(dir, "", 0, &mut out);
     out.sort();
     out
 }
